@@ -1,6 +1,6 @@
 (* C15 — property theorems only: each restates the full statement and is closed by the lemma proved in Proofs/. *)
 From Coq Require Import ZArith List Bool.
-From NPS Require Import ListAux PySlice NumpySem Scatter BuildIdx XorBroadcast View Index Assign Reduce Scan RaOps Heap Hash HashRun BitArr RLE RLEOps RLE2d DataClass RowsSpec AssignSpec MapSpec Denote RLEIndex RLEIndex2 GetSlice StartEnd StepProof StepNeg.
+From NPS Require Import ListAux PySlice NumpySem Scatter BuildIdx XorBroadcast View Index Assign Reduce Scan RaOps Heap Hash HashRun BitArr RLE RLEOps RLE2d DataClass RowsSpec AssignSpec MapSpec Denote RLEIndex RLEIndex2 RLEWindows GetSlice StartEnd StepProof StepNeg.
 Import ListNotations.
 Open Scope Z_scope.
 
@@ -40,6 +40,30 @@ Theorem C15_get_bool_mask_correct :
        get_bool_mask (excl_prefix ls ++ [zsum ls], vs) m = Ok (mask_filter (spec_broadcast A vs ls) m).
 Proof. exact get_bool_mask_correct. Qed.
 Print Assumptions C15_get_bool_mask_correct.
+
+Theorem C15_rl_windows_decode :
+  forall (A : Type) (ev : list Z) (vs : list A) (ss es : list Z),
+       length ev = length vs ->
+       strictly_increasing (0 :: ev) ->
+       Forall (fun se : Z * Z => 0 <= fst se /\ fst se < snd se <= last (0 :: ev) 0) (combine ss es) ->
+       length ss = length es ->
+       map (decode A) (rl_windows (0 :: ev, vs) ss es) =
+       map2 (fun s e : Z => ztake (e - s) (zdrop s (decode A (0 :: ev, vs)))) ss es.
+Proof. exact rl_windows_decode. Qed.
+Print Assumptions C15_rl_windows_decode.
+
+Theorem C15_rl_getitem_rlmask_correct :
+  forall (A : Type) (ev : list Z) (vs : list A) (lsM : list Z) (bsM : list bool),
+       length ev = length vs ->
+       strictly_increasing (0 :: ev) ->
+       Forall (fun l : Z => 1 <= l) lsM ->
+       length bsM = length lsM ->
+       zsum lsM = last (0 :: ev) 0 ->
+       zlen (decode A (0 :: ev, vs)) = last (0 :: ev) 0 ->
+       rl_getitem_rlmask (0 :: ev, vs) (excl_prefix lsM ++ [zsum lsM], bsM) =
+       mask_filter (decode A (0 :: ev, vs)) (decode bool (excl_prefix lsM ++ [zsum lsM], bsM)).
+Proof. exact rl_getitem_rlmask_correct. Qed.
+Print Assumptions C15_rl_getitem_rlmask_correct.
 
 Theorem C15_get_slice_correct :
   forall (A : Type) (d : A) (eqb : A -> A -> bool),
